@@ -157,7 +157,7 @@ def register_stats(R):
     NOSEG = ["count_events('searcher.idf') == 0", "count_events('searcher.avg_field_length') == 0",
              "count_events('searcher.frequency') == 0", "count_events('searcher.doc_count_all') == 0",
              "count_events('searcher.field_length') == 0", "count_events('searcher.get_parent') == 1"]
-    R.contract(S + ":BM25FScorer.__init__", props=["C09"],
+    R.contract(S + ":BM25FScorer.__init__", props=["C09", "C06"],
                setup=lambda I: {"self": Obj(I.repo.klass(S, "BM25FScorer")), "searcher": mk_env(I), "fieldname": "f", "text": "t",
                                 "B": z3.Real("B"), "K1": z3.Real("K1")},
                requires=["0 <= B <= 1", "K1 >= 0"],
@@ -168,18 +168,18 @@ def register_stats(R):
                                 "self.avgfl = searcher.avg_field_length(fieldname) or 1")],
                note="BM25F: idf and average field length are read from the parent (whole-index) searcher, never from the "
                     "segment searcher: scores do not depend on how documents are split into segments")
-    R.contract(S + ":PL2Scorer.__init__", props=["C09"],
+    R.contract(S + ":PL2Scorer.__init__", props=["C09", "C06"],
                setup=lambda I: {"self": Obj(I.repo.klass(S, "PL2Scorer")), "searcher": mk_env(I), "fieldname": "f", "text": "t",
                                 "c": z3.Real("c")},
                requires=["c > 0"],
                ensures=NOSEG + ["count_events('parent.frequency') == 1", "count_events('parent.doc_count_all') == 1",
                                 "count_events('parent.avg_field_length') == 1"],
                note="PL2: cf, doc count and average field length come from the parent searcher")
-    R.contract(S + ":DFreeScorer.__init__", props=["C09"],
+    R.contract(S + ":DFreeScorer.__init__", props=["C09", "C06"],
                setup=lambda I: {"self": Obj(I.repo.klass(S, "DFreeScorer")), "searcher": mk_env(I), "fieldname": "f", "text": "t"},
                ensures=NOSEG + ["count_events('parent.frequency') == 1", "count_events('parent.field_length') == 1"],
                note="DFree: cf and total field length come from the parent searcher (and the methods exist)")
-    R.contract(S + ":TF_IDF.scorer", props=["C09"],
+    R.contract(S + ":TF_IDF.scorer", props=["C09", "C06"],
                setup=lambda I: {"self": Obj(I.repo.klass(S, "TF_IDF")), "searcher": mk_env(I), "fieldname": "f", "text": "t"},
                ensures=NOSEG + ["count_events('parent.idf') == 1"],
                note="TF_IDF: idf from the parent searcher")
